@@ -29,6 +29,7 @@ def make_component(seed, mode, fail_at, fail_kind, log):
     ys = [Variable('p'), Variable('q')]
     cp = [r.randint(-3, 3) / 2 for _ in range(nx)]; cq = [r.randint(-3, 3) / 2 for _ in range(nx)]
     counter = {'k': 0}
+    fail_kind0 = fail_kind
 
     def value(x, alpha):
         a = sum(alpha)
@@ -43,7 +44,10 @@ def make_component(seed, mode, fail_at, fail_kind, log):
         k = counter['k']
         p, q = value(x, alpha)
         failed = k in fail_at
-        log.append({'k': k, 'alpha': tuple(alpha), 'x': tuple(x), 'failed': failed})
+        fail_kind = fail_kind0
+        if failed and fail_kind0 == 'mixed':      # several failures of DIFFERENT modes in one run: raise / NaN alternately
+            fail_kind = 'raise' if sorted(fail_at).index(k) % 2 == 0 else 'nan'
+        log.append({'k': k, 'alpha': tuple(alpha), 'x': tuple(x), 'failed': failed, 'kind': fail_kind if failed else None})
         if failed:
             if fail_kind == 'raise':
                 raise Fault(f'evaluation {k} failed')
@@ -138,7 +142,7 @@ def run_history(seed, mode, fail_at, fail_kind, nsteps):
             try:
                 # the array-valued extra return is an undeclared (object) quantity: where an evaluation RAISED it is stored as None, and asking
                 # for it as numeric training data is outside the property; it is requested for the NaN kinds only
-                yv = ['p', 'q'] + (['prof'] if mode != 'vector' and fail_kind != 'raise' else [])
+                yv = ['p', 'q'] + (['prof'] if mode != 'vector' and fail_kind not in ('raise', 'mixed') else [])
                 _, yt = comp.get_training_data(a, b, y_vars=yv)
                 handed[(tuple(a), tuple(b))] = {k: np.asarray(v, dtype=float).tolist() for k, v in yt.items() if k in ('p', 'q', 'prof')}
             except Exception as e:
@@ -191,6 +195,9 @@ def run(ctx: Ctx):
         for _ in range(ctx.pick(3, 10)):
             jobs.append((set(rng.sample(positions, min(len(positions), rng.randint(2, 4)))), rng.choice(['raise', 'nan', 'nan-one', 'nan-part']),
                          rng.choice(['serial', 'vector', 'executor'])))
+        for _ in range(ctx.pick(2, 6)):
+            if len(positions) >= 2:
+                jobs.append((set(rng.sample(positions, min(len(positions), rng.randint(2, 4)))), 'mixed', rng.choice(['serial', 'executor'])))
         for fail_at, kind, mode in jobs:
             if mode == 'vector' and kind == 'raise':
                 kind = 'nan'          # a vectorised model cannot fail for one sample only by raising
@@ -240,7 +247,7 @@ def run(ctx: Ctx):
             failed_keys = {key_of(run_, e) for e in run_['log'] if e['failed']}
             base_by_key = {key_of(base, e): e for e in base['log']}
             # error records: exactly the failed evaluations that raised
-            want_err = failed_keys if kind == 'raise' else set()
+            want_err = (failed_keys if kind == 'raise' else {key_of(run_, e) for e in run_['log'] if e['failed'] and e['kind'] == 'raise'} if kind == 'mixed' else set())
             if run_['errors'] != want_err:
                 ctx.violate('C14:error-record-misplaced', f'errors recorded at {sorted(run_["errors"])}, the failing evaluations were at {sorted(want_err)}', case)
             # every other stored output is identical to the failure-free run
@@ -301,7 +308,7 @@ def run(ctx: Ctx):
                         failed_here = (a_, tuple(c)) in failed_keys
                         ra, rg = np.ravel(A[j]), np.ravel(G[j])
                         for e in range(len(ra)):
-                            missing = failed_here and (kind in ('raise', 'nan') or (kind == 'nan-one' and name == 'p') or (kind == 'nan-part' and name == 'prof' and e == 1))
+                            missing = failed_here and (kind in ('raise', 'nan', 'mixed') or (kind == 'nan-one' and name == 'p') or (kind == 'nan-part' and name == 'prof' and e == 1))
                             if missing:
                                 if not math.isfinite(rg[e]):
                                     bad = f'{name}[{e}] at {c} is {rg[e]} (a failed entry must be imputed)'
